@@ -34,9 +34,9 @@ ASSUMPTIONS = ['tolerance 2e-5*max|P| (float32 rounding: binning, positions and 
 
 def gen(rng, tier):
     from e1_threads.harness import gen_sched
-    nmesh = rng.choice([4, 5, 6, 7, 8, 8, 9, 12, 12, 16])
+    nmesh = rng.choice([4, 5, 6, 7, 8, 8, 9, 12, 12, 16] + ([20, 24] if tier == 'thorough' else []))
     L = rng.choice([1.0, 16.0, 64.0, 1024.0])
-    N = rng.choice([2, 5, 20, rng.randrange(2, 80)])
+    N = rng.choice([2, 5, 20, rng.randrange(2, 80)] + ([rng.randrange(80, 300)] if tier == 'thorough' else []))
     Q = 1 << 12
     pos = [[rng.randrange(Q), rng.randrange(Q), rng.randrange(Q)] for _ in range(N)]
     pos_other = [[rng.randrange(Q), rng.randrange(Q), rng.randrange(Q)] for _ in range(max(2, N // 2))]
